@@ -1281,6 +1281,8 @@ def c20(tier):
     client_replay(v, "C20", behs, "dispatch(paths)", {"C20", "C12", "C02"})
     behs = client_behaviours(v, "TreeLastSpec", 5 if not thorough else 6, 4, "paths")
     client_replay(v, "C20", behs, "local-tree-histories(paths)", {"C20", "C12", "C02"})
+    behs = client_behaviours(v, "InStraySpec", 7 if not thorough else 8, 1, "paths")
+    client_replay(v, "C20", behs, "inbound-qos2-with-stray-acks(paths)", {"C20", "C12", "C02"})
     v.cov["rule"] = ("Client.Connect against CONNACK code 0..5, session present, invalid code, wrong packet, truncated, closed: nil exactly for code 0, else the code, no library "
                      "goroutine left. Client specification, dispatch: Subscribe requests with overlapping filters (a/#, a/+), f/# against f, rejected filters (0x80), Unsubscribe, "
                      "inbound PUBLISH QoS 0..2 with DUP repeats, matching and non-matching topics; per step the invocations of every request's callback are compared with the "
